@@ -374,6 +374,9 @@ def fixed_frozen_write_cases(g):
              ["iandnot %%s %s" % o4] + ["%s %%s %d" % (op, v) for v in (8 * CH + 500, 8 * CH + 50, 11 * CH + 9, 14 * CH + 7, 5 * CH + 2) for op in ("add", "rem")],
              ["iandnot %%s %s" % o5] + ["%s %%s %d" % (op, v) for v in (11 * CH + 9, 8 * CH + 500, 14 * CH + 7, 2 * CH + 300) for op in ("rem", "add")],
              ["iand %%s %s" % o5] + ["%s %%s %d" % (op, v) for v in (8 * CH + 10, 2 * CH + 5) for op in ("rem", "add")],
+             # bulk insertions whose FIRST value in a chunk is already present (array / bitmap / run chunk), then new ones
+             ["addmanyfrom %%s %d 6 3" % (2 * CH + 5), "addmanyfrom %%s %d 5 2" % (5 * CH), "addmanyfrom %%s %d 4 100" % (8 * CH + 10),
+              "addmany %%s %d %d %d" % (11 * CH + 7, 11 * CH + 8, 11 * CH + 9)],
              # an in-place difference that empties the FIRST chunks (the survivors slide down), then writes into the survivors
              ["iandnot %%s %s" % o2, "add %%s %d" % (11 * CH + 9), "add %%s %d" % (5 * CH + 1), "rem %%s %d" % (14 * CH + 7), "add %%s %d" % (14 * CH + 7)]]
     for j, st in enumerate(steps):
